@@ -6,6 +6,7 @@ from vcheck import Case, hx, flist, parse_vals
 PID = "C16"
 RULE = ("non-trivial = a 3-D rotation / axis-relative spherical-coordinate case whose axis is within 1e-6 of +-z "
         "(polar distance of the normalised axis) or has length outside [0.1,10], or a rotation with |alpha| > 2 pi, "
+        "or axis-relative spherical coordinates with r outside [1e-3,1e3], "
         "or whose argument objects (axis, rotated vector, multiplied matrices) reach the call through a non-empty call history, "
         "or a history of at least two calls made in one pristine process (`seq`); "
         "guard requests (wrong dimension / axis size) count when they exit; distinct by case text")
@@ -94,6 +95,49 @@ def _phi(rng):
     if r < 0.2:
         return rng.choice([0.0, PI / 2, PI, 3 * PI / 2, math.nextafter(2 * PI, 0), 1e-9, 1e-300])
     return rng.uniform(0, 2 * PI)
+
+
+TINY = 5e-324          # the smallest subnormal, 2^-1074
+RMAX = 1e307           # r (1 + a few eps) must stay finite: the property cannot hold "to rounding" above DBL_MAX / (1 + 64 eps)
+_R_LADDER = [5e-324, 1e-320, 1e-310, 2.2250738585072014e-308, 1e-305, 1e-300, 1e-290, 1e-200, 1e-160, 1e-150, 1e-100, 1e-30, 1e-6,
+             1e6, 1e30, 1e100, 1e150, 1e160, 1e200, 1e290, 1e295, 1e297, 1e300, 1e304, 3e304, 1e306, RMAX]
+
+
+def _radius(rng, lo=-323.0, hi=307.0, p_extreme=0.3):
+    """r > 0 of every magnitude: mostly moderate (1e-3..1e3), else a rung of a geometric ladder over the whole range of doubles
+    (subnormal .. 1e307) or log-uniform over it; lo / hi (decimal exponents) bound it where the check itself calls Norm() / Angle() on the result"""
+    if rng.random() >= p_extreme: return 10 ** rng.uniform(-3, 3)
+    if rng.random() < 0.5:
+        c = [x for x in _R_LADDER if 10.0 ** lo <= x <= 10.0 ** hi]
+        return rng.choice(c) * rng.choice([1.0, 1.0, rng.uniform(0.5, 2.0)]) if c else 10 ** rng.uniform(lo, hi)
+    x = 10 ** rng.uniform(lo, hi)
+    return min(max(x, TINY), RMAX)
+
+
+def _radius_for_axis(rng, axis):
+    """radii aimed at the intermediates of the axis-relative formula: r / aux and r * aux (aux = sine of the tilt of the axis from +-z) on a
+    geometric ladder around the overflow and underflow thresholds, as far as r itself stays in (0, 1e307]"""
+    aux = _polar_distance(axis)
+    out = []
+    if 0.0 < aux < 1.0:
+        for k in (-6, -3, -1, 0, 1, 2, 4, 8):
+            for big in (True, False):
+                x = (1.7e308 * aux * 10.0 ** k) if big else _div(2.3e-308 * 10.0 ** -k, aux)
+                if TINY <= x <= RMAX and math.isfinite(x): out.append(x)
+    return out
+
+
+def _rtag(r):
+    if r < 1e-290: return ("r-tiny",)
+    if r > 1e290: return ("r-huge",)
+    if not 1e-3 <= r <= 1e3: return ("r-extreme",)
+    return ()
+
+
+def _rtol(r):
+    """tolerance of the differential comparison for a result of scale r: relative 1e-13, absolute 1e-300 r (and a few subnormal ulps)"""
+    if 1e-3 <= r <= 1e3: return None
+    return (1e-13, max(min(1e-300, 1e-300 * r), 64 * TINY))
 
 
 def _perp(rng, n):
@@ -373,7 +417,7 @@ def _question(rng, v):
     k = rng.choice(pool)
     if k in ("qa", "qb", "qd", "qo", "qO", "qe", "qc"): return (k, _other(rng, v))
     if k in ("qr", "qw"): return (k, rng.randrange(n))
-    if k == "cs": return ("cs", 10 ** rng.uniform(-3, 3), _theta(rng), _phi(rng))
+    if k == "cs": return ("cs", _radius(rng), _theta(rng), _phi(rng))
     if k == "cr2": return ("cr", _rel_angle(rng), 2)
     if k == "cr3": return ("cr", _rel_angle(rng), 3)
     return (k,)
@@ -553,8 +597,8 @@ def _hist_case(rng, axis, tag, kind, alpha, beta, obj):
     elif kind == "rotaxis":
         cs.append(Case(f"hist rotaxis {hx(alpha)} {_v3(st)} {_fmt_vhist(hs)} {_fmt_mhist(_mhist(rng))}", tags))
     elif kind == "rotsph":
-        r = 10 ** rng.uniform(-3, 3)
-        cs.append(Case(f"hist rotsph {hx(alpha)} {hx(r)} {hx(_theta(rng))} {hx(_phi(rng))} {_v3(st)} {_fmt_vhist(hs)} {_fmt_mhist(_mhist(rng))}", tags))
+        r = _radius(rng)
+        cs.append(Case(f"hist rotsph {hx(alpha)} {hx(r)} {hx(_theta(rng))} {hx(_phi(rng))} {_v3(st)} {_fmt_vhist(hs)} {_fmt_mhist(_mhist(rng))}", tags + _rtag(r), tol=_rtol(r)))
     elif kind == "sphrot":
         r = 10 ** rng.uniform(-3, 3); th = _theta(rng); ph = _phi(rng)
         # the returned vector is asked, changed by moderate amounts and asked again before it serves as an axis
@@ -564,12 +608,12 @@ def _hist_case(rng, axis, tag, kind, alpha, beta, obj):
             us.append(q)
         cs.append(Case(f"hist sphrot {hx(r)} {hx(th)} {hx(ph)} {hx(alpha)} {_v3(st)} {_fmt_vhist(hs)} {_fmt_vhist(us)}", tags))
     elif kind in ("spha", "sphang"):
-        r = 10 ** rng.uniform(-3, 3)
-        cs.append(Case(f"hist {kind} {hx(r)} {hx(_theta(rng))} {hx(_phi(rng))} {flist(st)} {_fmt_vhist(hs)}", tags))
+        r = _radius(rng) if kind == "spha" else _radius(rng, -140.0, 140.0)
+        cs.append(Case(f"hist {kind} {hx(r)} {hx(_theta(rng))} {hx(_phi(rng))} {flist(st)} {_fmt_vhist(hs)}", tags + _rtag(r), tol=_rtol(r)))
     elif kind == "sphad":
-        r = 10 ** rng.uniform(-3, 3)
+        r = _radius(rng)
         h = rng.choice([1e-3, 1e-2, 0.1, 0.5, 1.0, rng.uniform(1e-3, 1.5)])
-        cs.append(Case(f"hist sphad {hx(r)} {hx(_theta(rng))} {hx(_phi(rng))} {hx(h)} {_v3(st)} {_fmt_vhist(hs)}", tags))
+        cs.append(Case(f"hist sphad {hx(r)} {hx(_theta(rng))} {hx(_phi(rng))} {hx(h)} {_v3(st)} {_fmt_vhist(hs)}", tags + _rtag(r), tol=_rtol(r)))
     return cs
 
 
@@ -661,7 +705,7 @@ def _seq_case(rng, axis, atag):
         """the Vector argument w as a temporary or (when it is the value of a live object) as that object"""
         if obj is not None and rng.random() < 0.6: return f"o {obj}"
         return "l " + flist(w)
-    threads = []; tags = set()
+    threads = []; tags = set(); radii = []
     # ---- Rotation_Matrix threads
     for t in range(rng.choice([1, 1, 1, 1, 2, 0])):
         angles, m = _angle_motif(rng); tags.add("seq-angles-" + m)
@@ -685,7 +729,8 @@ def _seq_case(rng, axis, atag):
         threads.append(th); tags.add("seq-rot-" + style)
     # ---- Spherical_Coordinates threads: the same request again, r / theta / phi changed alone, reflected, nearly equal; with and without axis
     for t in range(rng.choice([0, 1, 1, 2])):
-        r = 10 ** rng.uniform(-3, 3); th0 = _theta(rng); ph0 = _phi(rng)
+        r = _radius(rng); th0 = _theta(rng); ph0 = _phi(rng); radii.append(r); tags.update(_rtag(r))
+        D = lambda x: min(2 * x, RMAX)
         if threads and threads[0][0].startswith("rot") and rng.random() < 0.3:
             # the numbers a rotation of this history was called with
             a = abs(float.fromhex(threads[0][0].split()[1])); th0 = _in_range(a, 0.0, PI, PI) if a > PI else a; ph0 = _in_range(a, 0.0, math.nextafter(2 * PI, 0), 2 * PI)
@@ -693,7 +738,7 @@ def _seq_case(rng, axis, atag):
         T = lambda x: min(max(x, 0.0), PI)
         m = rng.choice(["repeat", "r", "phi-reflect", "phi-half", "theta-reflect", "near", "swap", "walk"])
         if m == "repeat": reqs = [(r, th0, ph0)] * 3
-        elif m == "r": reqs = [(r, th0, ph0), (2 * r, th0, ph0), (r, th0, ph0), (_near(rng, r), th0, ph0)]
+        elif m == "r": reqs = [(r, th0, ph0), (D(r), th0, ph0), (r, th0, ph0), (min(_near(rng, r), RMAX), th0, ph0)]
         elif m == "phi-reflect": reqs = [(r, th0, ph0), (r, th0, P(2 * PI - ph0)), (r, th0, ph0)]
         elif m == "phi-half": reqs = [(r, th0, ph0), (r, th0, P(ph0 + PI)), (r, th0, ph0)]
         elif m == "theta-reflect": reqs = [(r, th0, ph0), (r, T(PI - th0), ph0), (r, th0, ph0)]
@@ -703,7 +748,7 @@ def _seq_case(rng, axis, atag):
             reqs = [(r, th0, ph0)]
             for _ in range(rng.choice([3, 5])):
                 rr, tt, pp = reqs[-1]
-                reqs.append(rng.choice([(rr, tt, pp), (r, th0, ph0), (rr * 2, tt, pp), (rr, T(PI - tt), pp), (rr, tt, P(2 * PI - pp)), (rr, T(_near(rng, tt)), pp), (rr, tt, P(_near(rng, pp)))]))
+                reqs.append(rng.choice([(rr, tt, pp), (r, th0, ph0), (D(rr), tt, pp), (rr, T(PI - tt), pp), (rr, tt, P(2 * PI - pp)), (rr, T(_near(rng, tt)), pp), (rr, tt, P(_near(rng, pp)))]))
         style = rng.choice(["plain", "axis", "axis", "mixed", "mixed"])
         th = []
         for (rr, tt, pp) in reqs:
@@ -739,7 +784,8 @@ def _seq_case(rng, axis, atag):
         tags.add("seq-interleaved")
     else:
         rng.shuffle(threads); calls = [c for th in threads for c in th]
-    return Case(f"seq {len(pool)} " + " ".join(flist(w) for w in pool) + f" {len(calls)} " + " ".join(calls), ("seq", atag) + tuple(sorted(tags)))
+    tol = _rtol(min(radii)) if radii and min(radii) < 1e-3 else None
+    return Case(f"seq {len(pool)} " + " ".join(flist(w) for w in pool) + f" {len(calls)} " + " ".join(calls), ("seq", atag) + tuple(sorted(tags)), tol=tol)
 
 
 def _seq_cases(rng, n_random):
@@ -782,8 +828,8 @@ def generate(rng, tier):
         v = _perp(rng, n) if rng.random() < 0.8 else [rng.gauss(0, 1) for _ in range(3)]
         cs.append(Case(f"{rng.choice(['rotapply', 'rotback'])} {hx(_angle(rng))} " + _v3(axis) + " " + _v3(v), ("rotapply", tag)))
         if rng.random() < 0.5: cs.append(Case(f"rotaxis {hx(_angle(rng))} " + _v3(axis), ("rotaxis", tag)))
-        r = 10 ** rng.uniform(-3, 3)
-        cs.append(Case(f"rotsph {hx(_angle(rng))} {hx(r)} {hx(_theta(rng))} {hx(_phi(rng))} " + _v3(axis), ("rotsph", tag)))
+        r = _radius(rng)
+        cs.append(Case(f"rotsph {hx(_angle(rng))} {hx(r)} {hx(_theta(rng))} {hx(_phi(rng))} " + _v3(axis), ("rotsph", tag) + _rtag(r), tol=_rtol(r)))
     # ---- guards of Rotation_Matrix
     for dim in (0, 1, 4, -3, 5):
         cs.append(Case(f"rot {hx(0.3)} {dim} 3 0x0p+0 0x0p+0 0x1p+0", ("rot-guard",)))
@@ -792,18 +838,25 @@ def generate(rng, tier):
     cs.append(Case(f"rot {hx(0.3)} 3 {flist([0.0, 0.0, 0.0])}", ("rot-zero-axis",)))
     # ---- plain spherical coordinates
     for _ in range(5000 if big else 400):
-        r = 10 ** rng.uniform(-3, 3)
-        cs.append(Case(f"sph {hx(r)} {hx(_theta(rng))} {hx(_phi(rng))}", ("sph",)))
+        r = _radius(rng)
+        cs.append(Case(f"sph {hx(r)} {hx(_theta(rng))} {hx(_phi(rng))}", ("sph",) + _rtag(r), tol=_rtol(r)))
     # ---- spherical coordinates about an axis
     for axis, tag in _axes(rng, nrand):
         for _ in range(reps):
-            r = 10 ** rng.uniform(-3, 3)
-            cs.append(Case(f"spha {hx(r)} {hx(_theta(rng))} {hx(_phi(rng))} {flist(axis)}", ("spha", tag)))
-        r = 10 ** rng.uniform(-3, 3); th = _theta(rng); ph = _phi(rng)
+            r = _radius(rng)
+            cs.append(Case(f"spha {hx(r)} {hx(_theta(rng))} {hx(_phi(rng))} {flist(axis)}", ("spha", tag) + _rtag(r), tol=_rtol(r)))
+        # every magnitude of r with every kind of axis: r / aux and r * aux (aux = sine of the tilt from +-z) around the overflow / underflow thresholds
+        aimed = _radius_for_axis(rng, axis)
+        if aimed and (big or tag == "axis-near-pole" or rng.random() < 0.15):
+            for r in (aimed if big else rng.sample(aimed, min(2, len(aimed)))):
+                r *= rng.choice([1.0, rng.uniform(0.5, 2.0)]); r = min(max(r, TINY), RMAX)
+                cs.append(Case(f"spha {hx(r)} {hx(_theta(rng))} {hx(_phi(rng))} {flist(axis)}", ("spha", tag, "r-aimed-at-r/aux") + _rtag(r), tol=_rtol(r)))
+        r = _radius(rng); th = _theta(rng); ph = _phi(rng)
         h = rng.choice([1e-3, 1e-2, 0.1, 0.5, 1.0, rng.uniform(1e-3, 1.5)])
-        cs.append(Case(f"sphad {hx(r)} {hx(th)} {hx(ph)} {hx(h)} " + _v3(axis), ("sphad", tag)))
-        r = 10 ** rng.uniform(-3, 3)
-        if rng.random() < 0.5: cs.append(Case(f"sphang {hx(r)} {hx(_theta(rng))} {hx(_phi(rng))} {flist(axis)}", ("sphang", tag)))
+        cs.append(Case(f"sphad {hx(r)} {hx(th)} {hx(ph)} {hx(h)} " + _v3(axis), ("sphad", tag) + _rtag(r), tol=_rtol(r)))
+        # the library's own Norm() / Angle() of the result square its components: r stays where r^2 is a normal number
+        r = _radius(rng, -140.0, 140.0)
+        if rng.random() < 0.5: cs.append(Case(f"sphang {hx(r)} {hx(_theta(rng))} {hx(_phi(rng))} {flist(axis)}", ("sphang", tag) + _rtag(r), tol=_rtol(r)))
         else: cs.append(Case(f"sphrot {hx(r)} {hx(_theta(rng))} {hx(_phi(rng))} {hx(_angle(rng))} " + _v3(axis), ("sphrot", tag)))
     for ax in ([0.0, 0.0, 0.0], [0.0, 0.0], [], [1.0], [1.0, 0.0], [0.0, 1.0], [0.0, 0.0, 2.0, 0.0], [0.0, 0.0, -2.0, 0.0], [1.0, 2.0, 3.0, 4.0]):
         cs.append(Case(f"spha {hx(2.0)} {hx(0.3)} {hx(0.4)} {flist(ax)}", ("spha-guard",)))
@@ -868,8 +921,9 @@ def nontrivial(c, io):
     if d["nsteps"] > 0: return True
     if op in ("rot", "rotdef"): return (d["dim"] == 3 and (ax_nt(d["axis"]) or abs(d["alpha"]) > 2 * PI)) or (d["dim"] == 2 and abs(d["alpha"]) > 2 * PI)
     if op == "rotcomp": return ax_nt(d["axis"]) or abs(d["a"]) > 2 * PI or abs(d["b"]) > 2 * PI
+    if op == "rotsph" and not 1e-3 <= d["r"] <= 1e3: return True
     if op in ("rotapply", "rotback", "rotaxis", "rotsph", "sphrot"): return ax_nt(d["axis"]) or abs(d["alpha"]) > 2 * PI
-    if op in ("spha", "sphad", "sphang"): return ax_nt(d["axis"])
+    if op in ("spha", "sphad", "sphang"): return ax_nt(d["axis"]) or not 1e-3 <= d["r"] <= 1e3
     return False
 
 
@@ -932,10 +986,32 @@ def _rot_answer_checks(alpha, dim, axis, R, out, note=""):
         _rot3_matrix_checks(R, alpha, axis, out, note)
 
 
+def _ldexp(x, k):
+    try: return math.ldexp(x, k)
+    except OverflowError: return math.copysign(math.inf, x)
+
+
+def _unit_scale(r, *vecs):
+    """(r', vecs', sub): r and the vectors times the power of two that takes r into [0.5, 1) (exact), so that the clauses can be evaluated for
+    every r > 0 without overflow / underflow in the evaluation itself; sub = 32 subnormal ulps on that scale: where the result is subnormal
+    each of its <= 24 roundings loses up to half a subnormal ulp absolutely instead of eps relatively"""
+    k = math.frexp(r)[1]
+    return _ldexp(r, -k), [[_ldexp(x, -k) for x in v] for v in vecs], 32 * _ldexp(TINY, -k)
+
+
+def _region(r):
+    """signature suffix: the magnitude region of r"""
+    return ":r-tiny" if r < 1e-290 else ":r-huge" if r > 1e290 else ""
+
+
 def _sph_answer_checks(r, th, ph, o, out):
-    w = o[1:4]; ref = [r * math.sin(th) * math.cos(ph), r * math.sin(th) * math.sin(ph), r * math.cos(th)]
-    if o[0] != 3 or not all(abs(w[i] - ref[i]) <= 8 * EPS * r for i in range(3)):
-        out.append(("sph:formula", f"Spherical_Coordinates = {w!r}, formula gives {ref!r}"))
+    w = o[1:4]
+    if o[0] != 3 or not all(math.isfinite(x) for x in w):
+        out.append(("sph:formula" + _region(r), f"Spherical_Coordinates({r!r}, {th!r}, {ph!r}) = {w!r} is not a finite 3-vector")); return
+    r1, (w1,), sub = _unit_scale(r, w)
+    ref = [r1 * math.sin(th) * math.cos(ph), r1 * math.sin(th) * math.sin(ph), r1 * math.cos(th)]
+    if not all(abs(w1[i] - ref[i]) <= 8 * EPS * r1 + sub for i in range(3)):
+        out.append(("sph:formula" + _region(r), f"Spherical_Coordinates({r!r}, {th!r}, {ph!r}) = {w!r}, i.e. r * {[x / r1 for x in w1]!r}; the formula gives r * {[x / r1 for x in ref]!r}"))
 
 
 # ---- histories of calls (`seq`)
@@ -1039,16 +1115,20 @@ def _matrix_history_slack(alpha, axis, steps):
 
 
 def _spha_checks(op, r, th, axis, w, out):
-    n = _unit(axis)
+    n = _unit(axis); reg = _region(r)
+    if len(w) != 3 or not all(math.isfinite(x) for x in w):
+        out.append(("spha:norm" + reg, f"Spherical_Coordinates(r = {r!r}, theta = {th!r}, axis {axis!r}) = {w!r} is not a finite 3-vector")); return
+    # evaluated on the scale of r (exact scaling by a power of two): no overflow / underflow in the check for any r > 0
+    r0 = r; r, (w,), sub = _unit_scale(r, w); ss = sub / r
     # slack 64 eps r: each component is a sum of <= 3 terms of magnitude <= r with <= 8 roundings each
     nr = math.sqrt(_dot(w, w))
-    if not abs(nr - r) <= 64 * EPS * r: out.append(("spha:norm", f"norm {nr!r} instead of r = {r!r} (axis {axis!r})"))
+    if not abs(nr - r) <= 64 * EPS * r + 2 * sub: out.append(("spha:norm" + reg, f"norm {nr / r!r} r instead of r = {r0!r} (theta {th!r}, axis {axis!r})"))
     ct = _dot(w, n) / r
-    if not abs(ct - math.cos(th)) <= 64 * EPS: out.append(("spha:polar-angle", f"unit . axis = {ct!r}, cos(theta) = {math.cos(th)!r} (axis {axis!r})"))
+    if not abs(ct - math.cos(th)) <= 64 * EPS + 2 * ss: out.append(("spha:polar-angle" + reg, f"unit . axis = {ct!r}, cos(theta) = {math.cos(th)!r} (r {r0!r}, axis {axis!r})"))
     # the component perpendicular to the axis has length r sin(theta) (polar angle theta, seen where the cosine is flat)
     perp = [w[i] - _dot(w, n) * n[i] for i in range(3)]; sp = math.sqrt(_dot(perp, perp)) / r
-    if not abs(sp - math.sin(th)) <= 64 * EPS:
-        out.append(("spha:polar-sine", f"|u - (u.ev) ev| / r = {sp!r}, sin(theta) = {math.sin(th)!r} (theta {th!r}, axis {axis!r})"))
+    if not abs(sp - math.sin(th)) <= 64 * EPS + 2 * ss:
+        out.append(("spha:polar-sine" + reg, f"|u - (u.ev) ev| / r = {sp!r}, sin(theta) = {math.sin(th)!r} (r {r0!r}, theta {th!r}, axis {axis!r})"))
 
 
 def _acos_interval(c, delta):
@@ -1138,8 +1218,11 @@ def predicates(c, io):
         # R(alpha) u(phi) = u(phi + alpha): the rotation and the azimuth are right-handed about the same axis.  Errors: 64 eps in R,
         # 64 eps r in each u, seen through a sum of three products (<= 3 * 64 + 3 * 64 + 4 eps r), 64 eps r for u(phi+alpha) and
         # |phi + alpha| eps r for the rounded sum of the angles: < 512 eps r
-        if not all(abs(w[i] - u2[i]) <= (512 * EPS + 3 * ex) * r for i in range(3)):
-            out.append(("rotsph:turning-is-increasing-phi", f"R(alpha) u(phi) = {w!r} but u(phi+alpha) = {u2!r} (alpha {alpha!r}, axis {axis!r})"))
+        if not all(math.isfinite(x) for x in w + u2):
+            out.append(("rotsph:turning-is-increasing-phi" + _region(r), f"R(alpha) u(phi) = {w!r}, u(phi+alpha) = {u2!r}: not finite (r {r!r}, alpha {alpha!r}, axis {axis!r})")); return out
+        r1, (w1, v1), sub = _unit_scale(r, w, u2)
+        if not all(abs(w1[i] - v1[i]) <= (512 * EPS + 3 * ex) * r1 + 4 * sub for i in range(3)):
+            out.append(("rotsph:turning-is-increasing-phi" + _region(r), f"R(alpha) u(phi) = {w!r} but u(phi+alpha) = {u2!r} (r {r!r}, alpha {alpha!r}, axis {axis!r})"))
         _spha_checks("rotsph", r, th, axis, u2, out)
     elif op == "sph":
         r, th, ph = d["r"], d["theta"], d["phi"]
@@ -1156,12 +1239,17 @@ def predicates(c, io):
         if op == "sphad":
             h = d["h"]
             w2 = o[5:8]
+            if not all(math.isfinite(x) for x in w + w2):
+                _spha_checks(op, r, th, axis, w2, out); return out           # reported by the norm clause
+            r0 = r; r, (w, w2), sub = _unit_scale(r, w, w2)
             dd = [w2[i] - w[i] for i in range(3)]
             val = _dot(_cross(n, w), dd); ref = r * r * math.sin(th) ** 2 * math.sin(h)
             # (ev x u(phi)) . (u(phi+h) - u(phi)) = r^2 sin^2(theta) sin(h) > 0: increasing phi moves the vector around the axis
             # in the right-handed sense; slack 2 * 64 eps r^2 (errors of u(phi), u(phi+h)) + rounding of phi+h
-            if not abs(val - ref) <= (128 + 8) * EPS * r * r:
-                out.append(("spha:right-handed", f"(ev x u(phi)) . (u(phi+h)-u(phi)) = {val!r}, expected r^2 sin^2(theta) sin(h) = {ref!r} (axis {axis!r})"))
+            if not abs(val - ref) <= (128 + 8) * EPS * r * r + 4 * sub:
+                out.append(("spha:right-handed" + _region(r0), f"(ev x u(phi)) . (u(phi+h)-u(phi)) = {val / (r * r)!r} r^2, expected r^2 sin^2(theta) sin(h) = {ref / (r * r)!r} r^2 (r {r0!r}, axis {axis!r})"))
+            w, w2 = o[1:4], o[5:8]; r = r0
+            _spha_checks(op, r, th, axis, w2, out)
         elif op == "sphang":
             # the library's own Norm() and Angle() of the returned vector: r and theta
             nr, a1, a2 = o[4], o[5], o[6]
